@@ -71,7 +71,7 @@ def generate(seed: int, tier: str):
                 ch, style = W.gen_chunks(rng, shapes[t], style=style)
             storage.append({"kind": kind, "chunks": ch, "style": style})
     steps = []
-    n_steps = rng.choice([1, 1, 2, 2, 3, 4])
+    n_steps = rng.choice([1, 1, 2, 2, 3, 4]) if tier == "quick" else rng.choice([1, 2, 3, 4, 5, 6])
     for i in range(n_steps):
         steps.append({"src": rng.random(), "b": b0 if i == 0 else rng.choice([1, 2, 2, 3, b0]), "compute": rng.random() < 0.5,
                       "use_first": rng.choice([None, None, "load", "average"])})  # the source loader may have been used before it is binned
